@@ -185,7 +185,14 @@ def make_case(family, i, rng, tier):
         idx = i % (SLOTS // 4)
         if idx >= _nevents(b):
             return None
-        return {'base': b, 'index': idx, 'how': 'with_hold', 'faults': []}
+        c = {'base': b, 'index': idx, 'how': 'with_hold', 'faults': []}
+        # variants: an earlier with-block on the object that failed before
+        # connecting; the loop iterated by a helper thread
+        if idx % 3 == 1:
+            c['pre_with_failure'] = True
+        elif idx % 3 == 2:
+            c['iterate_in_thread'] = True
+        return c
     if family == 'sweep_fd0':
         # a process without stdin: the first socket gets descriptor 0
         c = make_case('sweep', i, rng, tier)
@@ -241,6 +248,9 @@ def build(case):
                        'do': [{'op': 'close'}]})
     if case.get('fd0'):
         sc['fd_base'] = 0
+    for k in ('pre_with_failure', 'iterate_in_thread'):
+        if case.get(k):
+            sc[k] = True
     if case.get('long_url'):
         # (a long but legal URL: a token in the query string)
         sc['url'] += ('&' if '?' in sc['url'] else '?') + 'token=' + \
